@@ -613,6 +613,9 @@ def check(ctx):
     from c12 import check_every_emit_recorded
     check_every_emit_recorded(P, r1)
     check_stale_harvest_reads(P, r1, reach)
+    # the payload type of `emit("e", v)` with `let v = Type::ctor(..)` is a root as well: it exists only if the initialiser form is recognised
+    from c12 import check_init_type_selector
+    check_init_type_selector(P, r1)
     r1.require_floor(10, "seed sites")
     rules.append(r1)
 
